@@ -167,9 +167,17 @@ def run(c):
     tmp = os.path.join(c.work, "tmp")
     os.makedirs(tmp, exist_ok=True)
 
-    def crashed(out, mode, seed):
-        """the Go runtime itself detected unsynchronised map access (or a deadlock) and killed the process"""
+    def crashed(out, mode, seed, rc=None):
+        """the Go runtime itself detected unsynchronised map access (or a deadlock) and killed the process, or the
+        harness' watchdog found calls that never return"""
         m = re.search(r"fatal error: (concurrent map [a-z ]+|all goroutines are asleep - deadlock!|sync: [^\n]+)", out)
+        w = re.search(r"c08 watchdog: [^\n]+", out)
+        if w or (not m and rc == 124):
+            i = out.find("c08 watchdog:") if w else max(0, len(out) - 2500)
+            c.fail("oracle", "concurrent Run / FindType calls on one engine do not return (deadlock)",
+                   input={"harness": "harness/cmd/c08 (-race)", "mode": mode, "seed": seed},
+                   expected="all calls return", observed=out[i:i + 4000])
+            return True
         if not m:
             return False
         i = out.find("fatal error:")
@@ -182,21 +190,21 @@ def run(c):
         args = ["-mode", "explore", "-seed", str(seed), "-budget", str(budget), "-tmp", os.path.join(tmp, tag), "-ns", ns]
         if fresh:
             args.append("-fresh")
-        rc, out = c.run_harness(hb, args, timeout=3000,
+        rc, out = c.run_harness(hb, args, timeout=int(budget) * 3 + 240,
                                 env={"GORACE": "halt_on_error=0 log_path=%s" % os.path.join(race_dir, tag)})
         lines = jlines(out)
         if rc not in (0, 66) or not any(l.get("k") == "done" for l in lines):  # 66: the race detector reported (judged below)
-            crashed(out, "explore", seed) or c.obligation("harness-run:c08-explore-" + tag, False, out[-3000:])
+            crashed(out, "explore", seed, rc) or c.obligation("harness-run:c08-explore-" + tag, False, out[-3000:])
         return lines
 
     def findtype(hb, seed, nscripts, nbursts, tag):
         args = ["-mode", "findtype", "-seed", str(seed), "-scripts", str(nscripts), "-bursts", str(nbursts),
                 "-tmp", os.path.join(tmp, tag)]
-        rc, out = c.run_harness(hb, args, timeout=3000,
+        rc, out = c.run_harness(hb, args, timeout=(nscripts + nbursts) * 12 + 240,
                                 env={"GORACE": "halt_on_error=0 log_path=%s" % os.path.join(race_dir, tag)})
         lines = jlines(out)
         if rc not in (0, 66) or not any(l.get("k") == "done" for l in lines):  # 66: the race detector reported (judged below)
-            crashed(out, "findtype", seed) or c.obligation("harness-run:c08-findtype-" + tag, False, out[-3000:])
+            crashed(out, "findtype", seed, rc) or c.obligation("harness-run:c08-findtype-" + tag, False, out[-3000:])
         return lines
 
     with ThreadPoolExecutor(max_workers=4) as ex:
